@@ -521,6 +521,11 @@ func parsePackHeader(rb []byte, index int) int {
 	// skip stuffing
 	l := int(rb[i] & 0x7)
 	i += 1 + l
+	if len(rb) < i {
+		// stuffing字节还没有收全（rtp包的边界落在了stuffing中间），等待后续数据
+		nazalog.Debugf("[p] expected=%d, actual=%d", i, len(rb))
+		return -1
+	}
 
 	return i - index
 }
